@@ -161,7 +161,7 @@ var Qualified = []QName{
 var BuiltinDecls = []string{"pkgfunc", "pkgvar", "local", "param", "method"}
 
 // DeclKinds for qualified names.
-var QualDecls = []string{"varstructfield", "varmethod", "localvar", "param", "fakepkg"}
+var QualDecls = []string{"varstructfield", "varmethod", "localvar", "param", "fakepkg", "param+import", "localvar+import"}
 
 func body(sig Sig) string {
 	if sig.Results == "" {
@@ -237,6 +237,15 @@ func ShadowQualified(q QName, decl string, sig Sig, args, ctx string) Prog {
 		params = q.Pkg + " *vrecv"
 	case "fakepkg":
 		imp = fmt.Sprintf("import %s \"%s\"\n", q.Pkg, FakePath(q, sig))
+	case "param+import":
+		// the file really imports the package; a parameter of the same name shadows it inside subject()
+		imp = fmt.Sprintf("import %s \"%s\"\n", q.Pkg, q.Path)
+		top = fmt.Sprintf("type vrecv struct{ %s %s }\nfunc keepImport() { _ = %s.%s }\n", q.Fn, ftype, q.Pkg, q.Fn)
+		params = q.Pkg + " *vrecv"
+	case "localvar+import":
+		imp = fmt.Sprintf("import %s \"%s\"\n", q.Pkg, q.Path)
+		top = fmt.Sprintf("type vrecv struct{}\nfunc (vrecv) %s(%s) %s %s\nfunc keepImport() { _ = %s.%s }\n", q.Fn, sig.Params, sig.Results, body(sig), q.Pkg, q.Fn)
+		pre = fmt.Sprintf("var %s vrecv\n\t", q.Pkg)
 	}
 	stmt := strings.ReplaceAll(ctx, "%s", call)
 	src := "package vpkg\n" + imp + prelude + top + "\nfunc subject(" + params + ") {\n\t" + pre + stmt + "\n}\n"
